@@ -393,6 +393,10 @@ class Interp:
                 c = self.F.const(p)
                 if c is not None and c.get("val") is not None:
                     return Bits(None, int(c["val"]))
+                if c is not None and c.get("hir") is not None:
+                    lit = H.strip(c["hir"])
+                    if H.tag(lit) == "lit":
+                        return Const(lit[2])  # a string / char / float constant: an opaque constant value
                 raise Shape(f"constant {p} has no evaluated value")
             if "Fn" in kind:
                 return FnVal(p, n[3])
@@ -433,7 +437,7 @@ class Interp:
             p = m["path"]
             recv = self.ev(m["recv"], env)
             name = p.split("::")[-1]
-            if p in ("std::clone::Clone::clone", "std::borrow::ToOwned::to_owned") or p.startswith("std::option::Option::<T>::as_ref") \
+            if p in ("std::clone::Clone::clone", "std::borrow::ToOwned::to_owned", "std::string::ToString::to_string", "std::string::String::as_str", "std::string::String::as_mut_str") or p.startswith("std::option::Option::<T>::as_ref") \
                     or p in ("std::option::Option::<T>::as_deref", "std::option::Option::<&T>::cloned", "std::option::Option::<&T>::copied",
                              "std::convert::AsRef::as_ref", "std::borrow::Borrow::borrow"):
                 return recv
@@ -505,7 +509,14 @@ class Interp:
                 if n[3] is None:
                     return Adt("()", None, {})
                 return self.ev(n[3], env)
-            raise Shape("if on a non-pattern condition")
+            # a condition on symbolic values (`if name.eq_ignore_ascii_case("Patch")`): both outcomes are explored; the round trip must be the
+            # identity under either, so the condition itself need not be evaluated (its subexpressions have no effects in conversion code)
+            taken = self.decide(("if", n[1][1] if isinstance(n[1], list) and len(n[1]) > 1 and isinstance(n[1][1], str) else H.short(n[1], maxlen=60)), [True, False])
+            if taken:
+                return self.ev(n[2], env)
+            if n[3] is None:
+                return Adt("()", None, {})
+            return self.ev(n[3], env)
         if t == "try":
             return self.ev(n[1], env)
         if t == "ret":
